@@ -83,3 +83,11 @@ Definition items_agree (s : srv) (dumped : list (N * (N * option N * N * N * N))
                     end) dumped.
 
 Definition FUEL : nat := 64.
+
+(* outcomes and final state in one pass *)
+Fixpoint run_out (fuel : nat) (s : srv) (h : list event) : srv * list outcome :=
+  match h with
+  | [] => (s, [])
+  | e :: t => let '(s', o) := handle fuel s e in
+              let '(s'', os) := run_out fuel s' t in (s'', o :: os)
+  end.
